@@ -38,6 +38,20 @@ CLAIMED = {
              "(MACs/SHRAM per accelerator) restated from public Ethos-U data. Outside: command_stream tensors inside written files.",
         technique="dynamic symbolic execution of the real Python functions over z3 proxies (symx), symbolic stream length; counterexample replay",
         design="DESIGN.md §3 C17"),
+    "C10": dict(
+        text="Bounded solver verdict on the real stripe/padding chain: calc_padding_and_skirt / calc_explicit_padding / "
+             "calc_upscaled_padding_and_skirt -> Box.transform_with_strides_and_skirt -> create_padding's rule, checked against the "
+             "convolution receptive field as a sampling equivalence per (output row, kernel tap) for symbolic tensor height, kernel, pads "
+             "and stripe [a,b) (SAME/VALID/EXPLICIT, stride 1..3, striped and un-striped, rows and columns, x2 upscaling coverage); "
+             "get_ifm_area_required vs rows read; and the REAL generate_high_level_commands_for_sched_op run on a symbolic-height 2-op "
+             "cascade (stand-in schedule objects): stripes partition the OFM, every row a consumer stripe reads has been produced and "
+             "not yet overwritten in a rolling buffer of the height rolling_buffer_shape() gives.",
+        note="Trusted: z3, symx proxies, the hardware-side rule that the NPU derives the valid IFM extent from OFM size, kernel, stride "
+             "and pads (DESIGN §3 C10), stand-in schedule objects. Bounds: H<=64 (thorough 4096), kernel<=8 (16), cascade height<=40, "
+             "<=4 consumer / <=12 producer stripes. Outside: scheduler-chosen stripe sequences of real networks, exact pad semantics "
+             "under upscaling, width striping. One recorded finding (stride-3 consumers) is reported as KNOWN-FINDING.",
+        technique="dynamic symbolic execution of the real Python functions over z3 proxies (symx), bounded loops; reference receptive-field oracle; counterexample replay",
+        design="DESIGN.md §3 C10"),
 }
 
 NOT_APPLICABLE = {
